@@ -256,7 +256,7 @@ inductive Msg
   | recvPacket (packet proof : Bytes) (h : Height) (signer : Bytes) (cb : Callback)
   | acknowledgement (packet ack proof : Bytes) (h : Height) (signer : Bytes) (evm : EvmOut)
   | sendPacket (p : Packet) (setSeqOk : Bool)            -- Keeper.SendPacket as called from the EVM hook
-  | updateClient (chain : Bytes) (h : Height) (root : Bytes) (signer : Bytes) (headerOk : Bool)
+  | updateClient (chain : Bytes) (h : Height) (root : Bytes) (signer : Bytes) (headerOk : Bool)  -- root: consensus root; for a TSS client the new TssAddress
   | createClient (chain : Bytes) (cl : Client)           -- governance (abstract)
   | registerRelayer (r : Relayer)                        -- governance (abstract)
   | toggleClient (chain : Bytes) (cl : Client)           -- governance ToggleClientProposal: a client of another kind
@@ -416,7 +416,13 @@ def updateClient (c : Chain) (now : UInt64) (chain : Bytes) (h : Height) (root s
     match c.clients.get chain with
     | none => .error "upd:client"
     | some cl =>
-      if cl.kind = .tss then .error "upd:tss"
+      if cl.kind = .tss then
+        -- TSS: CheckMsg demands the CURRENT TSS address as signer; CheckHeaderAndUpdateState copies the header's
+        -- address (carried in `root`) into the client state and yields no consensus state; the keeper stores the
+        -- client state all the same: from now on the NEW address is the verifier
+        if signer != cl.tssAddr then .error "upd:tss-signer"
+        else if !headerOk then .error "upd:header"
+        else .ok { c with clients := c.clients.set chain { cl with tssAddr := root } }
       else if !headerOk then .error "upd:header"
       else
         let cl' := { cl with latest := maxHeight cl.latest h, cons := cl.cons.set h root,
